@@ -31,6 +31,9 @@ def canon(steps):
     return json.dumps(steps, sort_keys=True)
 
 
+ATTRIBUTION_BUDGET = 8   # re-executions for attribution per family
+
+
 def run_family(ctx, name, behaviours, tags, server_flags=None, subcmd="run"):
     """Executes behaviours, validates the traces with TLC, returns the violations
     (restricted to `tags`) as replay records."""
@@ -51,8 +54,9 @@ def run_family(ctx, name, behaviours, tags, server_flags=None, subcmd="run"):
     gcunsafe = {v["tid"] for v in viols if v["tag"] == "GCSafe"}
     attributed_tids = {}
     prefix_tried = set()
+    diff_tried = set()
     # RefEquiv / BuildEquiv first: a Converged violation of the same behaviour follows from them
-    for v in sorted(viols, key=lambda v: (v["tid"], v["line"], v["tag"] == "Converged")):
+    for v in sorted(viols, key=lambda v: (v["tid"], v["line"], v["tag"] in ("Converged", "ConvergedN"))):
         if v["tid"] in gcunsafe and v["tag"] in ("GCSafe", "SyncNeverFails", "Converged", "RefEquiv", "BuildEquiv", "BuildNeverFails") \
                 and any(f["id"] == "KF-MINVV-AFTER-PULL" for f in F.open_findings(ctx.prop)):
             ctx.count("attributed_KF-MINVV-AFTER-PULL")
@@ -78,13 +82,20 @@ def run_family(ctx, name, behaviours, tags, server_flags=None, subcmd="run"):
                 break
         kf = F.attribute(ctx.prop, v, evs, first)
         if kf is None and v["tid"] not in attributed_tids and v["tid"] not in prefix_tried \
-                and v["tag"] in ("Converged", "RefEquiv", "BuildEquiv") and v["tid"] in byid and subcmd == "run":
+                and v["tag"] in ("Converged", "RefEquiv", "BuildEquiv", "ConvergedN", "RefEquivN") and v["tid"] in byid and subcmd == "run":
             # one response may deliver the diverging change AND a later one that amplifies the divergence, so the first
             # observable disagreement need not have the finding's shape: look for the shortest PREFIX of the behaviour
             # that already disagrees with the reference, and judge that one
             prefix_tried.add(v["tid"])
-            kf = prefix_attribution(ctx, byid[v["tid"]], server_flags)
-        if kf is None and v["tid"] in attributed_tids and v["tag"] in ("Converged", "RefEquiv", "BuildEquiv", "BuildNeverFails", "SyncNeverFails", "LogReplayable"):
+            if len(prefix_tried) <= ATTRIBUTION_BUDGET:     # (a tree on which most behaviours fail is not a tree of listed findings)
+                kf = prefix_attribution(ctx, byid[v["tid"]], server_flags)
+        if kf is None and v["tid"] not in attributed_tids and v["tid"] not in diff_tried \
+                and v["tag"] in ("Converged", "RefEquiv", "ConvergedN", "RefEquivN") and v["tid"] in byid and subcmd == "run":
+            diff_tried.add(v["tid"])
+            if len(diff_tried) <= ATTRIBUTION_BUDGET:
+                kf = undo_gc_differential(ctx, byid[v["tid"]], evs, server_flags)
+        if kf is None and v["tid"] in attributed_tids and v["tag"] in ("Converged", "RefEquiv", "BuildEquiv", "BuildNeverFails", "SyncNeverFails", "LogReplayable",
+                                                                       "ConvergedN", "RefEquivN"):
             # a behaviour whose FIRST disagreement with the reference is explained by a listed finding: once the
             # structures differ, later operations resolve differently, so what follows in the same behaviour is a
             # consequence of it
@@ -100,6 +111,50 @@ def run_family(ctx, name, behaviours, tags, server_flags=None, subcmd="run"):
                     "server_flags": server_flags or [], "event": first,
                     "errors": [e.get("err") for e in evs if e.get("err")][:5], "seed": ctx.seed})
     return out
+
+
+def undo_gc_differential(ctx, b, evs, server_flags):
+    """KF-UNDO-RESTORE-PEER-PURGED, amplified: a peer that had purged the tombstones re-creates the restored
+    characters as other nodes than the undoing replica keeps; a later range operation then covers different
+    nodes there and the contents differ by more than an order. Attributed only if ALL of this holds: the history
+    undoes/redoes a text or tree edit; no error anywhere; every replica that ends up disagreeing with the
+    reference never executed an Undo/Redo itself (an undo that is not propagated shows on the undoer); and the
+    same behaviour with garbage collection switched off on every attachment satisfies every invariant."""
+    f = next((x for x in F.open_findings(ctx.prop) if x["id"] == "KF-UNDO-RESTORE-PEER-PURGED"), None)
+    if f is None:
+        return None
+    kinds = {(e.get("op") or {}).get("k") for e in evs if e["ev"] == "Edit"}
+    undoers = {e["c"] for e in evs if e["ev"] in ("Undo", "Redo")}
+    if not undoers or not (kinds & {"txt.edit", "tree.edit"}):
+        return None
+    if any(e.get("err") for e in evs if e["ev"] in ("Sync", "Attach", "Detach", "Ref", "Build", "Undo", "Redo")):
+        return None
+    last, ref = {}, None
+    for e in evs:
+        if e.get("rep") and e.get("c"):
+            last[e["c"]] = e["rep"]
+        if e["ev"] == "Ref":
+            ref = e
+    if ref is None:
+        return None
+    bad = {c for c, r in last.items() if not r.get("pend") and (r.get("cp") or [None])[0] == ref["s"] and r.get("ncontent") != ref.get("ncontent")}
+    if not bad or (bad & undoers):
+        return None
+    nb = json.loads(json.dumps(b))
+    for st in nb["steps"]:
+        if st["a"] == "attach":
+            st.setdefault("opt", {})["gcoff"] = True
+    nb["id"] = b["id"] + "~gcoff"
+    try:
+        traces = execute(ctx, [nb], "gcoff-" + re_safe(b["id"]), server_flags=server_flags, shards=1)
+        viols = validate(ctx, traces)
+    except Infra:
+        return None
+    ctx.count("gc_differential_runs")
+    if any(v["tag"] in ("RefEquiv", "RefEquivN", "Converged", "ConvergedN", "SyncNeverFails", "LogReplayable", "UndoRedoNeverFails", "CloneEqRoot") for v in viols):
+        return None
+    ctx.count("attributed_by_gc_differential_" + f["id"])
+    return f
 
 
 def prefix_attribution(ctx, b, server_flags):
@@ -122,7 +177,7 @@ def prefix_attribution(ctx, b, server_flags):
     ctx.count("prefix_attribution_runs")
     bad = {}
     for v in viols:
-        if v["tag"] in ("RefEquiv", "BuildEquiv", "Converged", "SyncNeverFails", "LogReplayable", "BuildNeverFails"):
+        if v["tag"] in ("RefEquiv", "BuildEquiv", "Converged", "SyncNeverFails", "LogReplayable", "BuildNeverFails", "RefEquivN", "ConvergedN"):
             k = int(v["tid"].rsplit("~p", 1)[1])
             bad.setdefault(k, []).append(v)
     if not bad:
@@ -516,7 +571,7 @@ def check_C15(ctx):
         steps = generate(ctx, "gen_pairs.cfg", overrides={"Alphabet": alpha, "Editors": '{"c1"}', "MaxEdits": "2", "MaxSyncs": "0", "Feat": '{"undo"}',
                                                           "MaxUndo": "4", "InitEdits": str(1 + len(extra["init"]))})
         total += len(steps)
-        steps = sample(ctx, steps, cap if quick else None)
+        steps = sample(ctx, steps, cap if quick else 4 * cap)
         behs = [wrap(st, "exh-prop-%s-%d" % (typ, i), nclients=2, kinds=extra["kinds"], init=extra["init"], family="exh-prop-" + typ) for i, st in enumerate(steps)]
         viols += run_family(ctx, "exh-prop-" + typ, behs, {"SyncNeverFails", "ConvergedN", "RefEquivN", "UndoRedoNeverFails", "LogReplayable", "CloneEqRoot"})
     ctx.samples.append({"family": "exh-prop", "behaviours_enumerated_by_tlc": total})
@@ -576,7 +631,7 @@ def check_C09(ctx):
     for typ, alpha, extra, cap in [("txt", "OpsTxtNoStyle", TXT, 1000), ("treet", "OpsTreeTextNoStyle", TREE, 1000)]:
         steps = generate(ctx, "gen_pairs.cfg", overrides={"Alphabet": alpha, "Editors": '{"c1"}', "MaxEdits": "2", "MaxSyncs": "0", "Feat": '{"undo"}',
                                                           "MaxUndo": "4", "InitEdits": str(1 + len(extra["init"]))})
-        steps = sample(ctx, steps, cap if quick else None)
+        steps = sample(ctx, steps, cap if quick else 4 * cap)
         behs = [wrap(st, "exh-enc-%s-%d" % (typ, i), nclients=2, kinds=extra["kinds"], init=extra["init"], family="exh-enc-" + typ) for i, st in enumerate(steps)]
         viols += run_family(ctx, "exh-enc-" + typ, behs, {"WireTransparent", "LogReplayable", "SyncNeverFails"})
     # merges, splits, split tickets, merged-from: the tree catalogue's changes and documents through the same round trips
@@ -684,7 +739,7 @@ def check_C14(ctx):
         steps = generate(ctx, "gen_pairs.cfg", overrides={"Alphabet": alpha, "Editors": '{"c1"}', "MaxEdits": "2", "MaxSyncs": "0", "Feat": '{"undo"}',
                                                           "MaxUndo": "4", "InitEdits": str(1 + len(extra["init"]))})
         total += len(steps)
-        steps = sample(ctx, steps, cap if quick else None)
+        steps = sample(ctx, steps, cap if quick else 4 * cap)
         behs = [wrap(st, "exh-undo-%s-%d" % (typ, i), nclients=2, kinds=extra["kinds"], init=extra["init"], family="exh-undo-" + typ) for i, st in enumerate(steps)]
         viols += run_family(ctx, "exh-undo-" + typ, behs, {"UndoExact", "RedoExact", "UndoRedoNeverFails", "CloneEqRoot"})
     ctx.samples.append({"family": "exh-undo", "behaviours_enumerated_by_tlc": total})
